@@ -32,4 +32,10 @@ def pyRangeI (a b : Int) : List Int := (List.range (b - a).toNat).map (fun (k : 
 /-- Python list indexing `l[i]` (valid indices only; `dflt` is never reached by the code) -/
 def pyGet {α : Type} (l : List α) (i : Nat) (dflt : α) : α := l.getD i dflt
 
+/-- Python `min(a, b)`: the first of the smallest (`b` only if it is strictly smaller) -/
+def pyMin {α : Type} [LT α] [DecidableLT α] (a b : α) : α := if b < a then b else a
+
+/-- Python `max(a, b)`: the first of the largest -/
+def pyMax {α : Type} [LT α] [DecidableLT α] (a b : α) : α := if a < b then b else a
+
 end Arim.Src
